@@ -43,6 +43,7 @@ Section Rot.
   Lemma lrot_facts (h : heap) root x h' root' :
     left_rotate h root x = Some (h', root') ->
     hright h x <> x -> hleft h (hright h x) <> x -> hleft h (hright h x) <> hright h x ->
+    hright h (hright h x) <> x ->
     hparent h x <> x -> hparent h x <> hright h x ->
     (hleft h (hright h x) = hparent h x -> hparent h x = NIL) ->
     x <> NIL /\ hright h x <> NIL /\
@@ -68,28 +69,156 @@ Section Rot.
       rval (rval (hmax h (hleft h x)) (hmax h (hleft h (hright h x))) (hmin h x))
            (hmax h (hright h (hright h x))) (hmin h (hright h x)).
   Proof.
-    unfold left_rotate. intros H N1 N2 N3 N4 N5 N6.
+    unfold left_rotate. intros H N1 N2 N3 N3' N4 N5 N6.
     destruct (x =? NIL) eqn:Ex; [discriminate|]. destruct (hright h x =? NIL) eqn:Ey; [discriminate|].
-    apply Z.eqb_neq in Ex, Ey. cbn [orb] in H.
-    injection H as <- <-. unfold refresh.
-    split; [exact Ex|]. split; [exact Ey|].
-    assert (Hroot : forall (hh : heap), snd (if hparent h x =? NIL then (hh, hright h x)
-                 else if x =? hleft h (hparent h x) then (set_left hh (hparent h x) (hright h x), root)
-                      else (set_right hh (hparent h x) (hright h x), root)) =
-                 (if hparent h x =? NIL then hright h x else root)).
-    { intros hh. destruct (hparent h x =? NIL); [reflexivity|]. destruct (x =? hleft h (hparent h x)); reflexivity. }
-    split. { hs. apply Hroot. }
-    Time split. { hfin. }
-    Time split. { hfin. }
-    Time split. { hfin. }
-    Time split. { hfin. }
-    Time split. { hfin. }
-    Time split. { hfin. }
-    Time split. { intros Hn. repeat split; hfin. }
-    Time split. { intros Hn. split; [hfin|]. split; intros Hl; split; hfin. }
-    Time split. { intros j J1 J2 J3 J4. unfold same_ptrs. repeat split; hfin. }
-    Time split. { intros j. repeat split; hfin. }
-    Time split. { intros j J1 J2. hfin. }
-    unfold rval. split; hfin.
+    apply Z.eqb_neq in Ex, Ey. cbn [orb] in H. cbv zeta in H.
+    set (y := hright h x) in *. set (yl := hleft h y) in *. set (xp := hparent h x) in *.
+    set (mx := rval (hmax h (hleft h x)) (hmax h yl) (hmin h x)).
+    set (my := rval mx (hmax h (hright h y)) (hmin h y)).
+    set (h1 := refresh ggt nmin h x _ _) in H.
+    assert (E1 : h1 = set_max h x mx) by reflexivity. clearbody h1.
+    set (h2 := refresh ggt nmin h1 _ _ _) in H.
+    assert (E2 : h2 = set_max h1 y my).
+    { unfold h2, refresh. f_equal. rewrite E1. hs. reflexivity. }
+    clearbody h2.
+    set (h3 := set_right h2 _ _) in H.
+    assert (E3 : h3 = set_right h2 x yl).
+    { unfold h3. f_equal. rewrite E2, E1. hs. reflexivity. }
+    clearbody h3.
+    set (h4 := set_parent h3 _ _) in H.
+    assert (E4 : h4 = set_parent h3 yl x).
+    { unfold h4. f_equal. rewrite E3, E2, E1. hs. reflexivity. }
+    clearbody h4.
+    set (h5 := set_parent h4 _ _) in H.
+    assert (E5 : h5 = set_parent h4 y xp).
+    { unfold h5. f_equal. rewrite E4, E3, E2, E1. hs. reflexivity. }
+    clearbody h5.
+    assert (P5 : hparent h5 x = xp). { rewrite E5, E4, E3, E2, E1. hs. reflexivity. }
+    rewrite P5 in H.
+    assert (L5 : hleft h5 xp = hleft h xp). { rewrite E5, E4, E3, E2, E1. hs. reflexivity. }
+    rewrite L5 in H.
+    set (h6 := if xp =? NIL then h5 else if x =? hleft h xp then set_left h5 xp y else set_right h5 xp y).
+    assert (E6 : fst (if xp =? NIL then (h5, y) else
+                 if x =? hleft h xp then (set_left h5 xp y, root) else (set_right h5 xp y, root)) = h6).
+    { unfold h6. destruct (xp =? NIL); [reflexivity|]. destruct (x =? hleft h xp); reflexivity. }
+    assert (R6 : snd (if xp =? NIL then (h5, y) else
+                 if x =? hleft h xp then (set_left h5 xp y, root) else (set_right h5 xp y, root)) =
+                 (if xp =? NIL then y else root)).
+    { destruct (xp =? NIL); [reflexivity|]. destruct (x =? hleft h xp); reflexivity. }
+    rewrite E6, R6 in H. injection H as <- <-.
+    split; [exact Ex|]. split; [exact Ey|]. split; [reflexivity|].
+    assert (F : forall (P : heap -> Prop),
+               (xp = NIL -> P h5) ->
+               (xp <> NIL -> hleft h xp = x -> P (set_left h5 xp y)) ->
+               (xp <> NIL -> hleft h xp <> x -> P (set_right h5 xp y)) -> P h6).
+    { intros P A B C. unfold h6. destruct (Z.eqb_spec xp NIL); [auto|].
+      destruct (Z.eqb_spec x (hleft h xp)); [apply B|apply C]; auto. }
+    Ltac fin E5 E4 E3 E2 E1 := intros; rewrite ?E5, ?E4, ?E3, ?E2, ?E1; hs; try reflexivity; try congruence.
+    split. { hs. apply F; fin E5 E4 E3 E2 E1. }
+    split. { hs. apply F; fin E5 E4 E3 E2 E1. }
+    split. { hs. reflexivity. }
+    split. { hs. reflexivity. }
+    split. { hs. apply F; fin E5 E4 E3 E2 E1. }
+    split. { hs. apply F; fin E5 E4 E3 E2 E1. }
+    split. { intros Hn. assert (yl <> xp) by (intros E; apply Hn; rewrite E; apply N6; exact E).
+             repeat split; hs; apply F; fin E5 E4 E3 E2 E1. }
+    split. { intros Hn. assert (yl <> xp) by (intros E; apply Hn; apply N6; exact E).
+             split; [hs; apply F; fin E5 E4 E3 E2 E1|].
+             split; intros Hl; split; hs; apply F; fin E5 E4 E3 E2 E1. }
+    split. { intros j J1 J2 J3 J4. unfold same_ptrs. repeat split; hs; apply F; fin E5 E4 E3 E2 E1. }
+    split. { intros j. repeat split; hs; apply F; fin E5 E4 E3 E2 E1. }
+    split. { intros j J1 J2. hs; apply F; fin E5 E4 E3 E2 E1. }
+    split; hs; apply F; fin E5 E4 E3 E2 E1.
   Qed.
+  Lemma rrot_facts (h : heap) root y h' root' :
+    right_rotate h root y = Some (h', root') ->
+    hleft h y <> y -> hright h (hleft h y) <> y -> hright h (hleft h y) <> hleft h y ->
+    hleft h (hleft h y) <> y ->
+    hparent h y <> y -> hparent h y <> hleft h y ->
+    (hright h (hleft h y) = hparent h y -> hparent h y = NIL) ->
+    y <> NIL /\ hleft h y <> NIL /\
+    root' = (if hparent h y =? NIL then hleft h y else root) /\
+    hright h' y = hright h y /\ hleft h' y = hright h (hleft h y) /\ hparent h' y = hleft h y /\
+    hright h' (hleft h y) = y /\ hleft h' (hleft h y) = hleft h (hleft h y) /\
+    hparent h' (hleft h y) = hparent h y /\
+    (hright h (hleft h y) <> NIL ->
+       hparent h' (hright h (hleft h y)) = y /\
+       hleft h' (hright h (hleft h y)) = hleft h (hright h (hleft h y)) /\
+       hright h' (hright h (hleft h y)) = hright h (hright h (hleft h y))) /\
+    (hparent h y <> NIL ->
+       hparent h' (hparent h y) = hparent h (hparent h y) /\
+       (hleft h (hparent h y) = y ->
+          hleft h' (hparent h y) = hleft h y /\ hright h' (hparent h y) = hright h (hparent h y)) /\
+       (hleft h (hparent h y) <> y ->
+          hright h' (hparent h y) = hleft h y /\ hleft h' (hparent h y) = hleft h (hparent h y))) /\
+    (forall j, j <> y -> j <> hleft h y -> j <> hright h (hleft h y) -> j <> hparent h y -> same_ptrs h h' j) /\
+    (forall j, hkey h' j = hkey h j /\ hval h' j = hval h j /\ hred h' j = hred h j) /\
+    (forall j, j <> y -> j <> hleft h y -> hmax h' j = hmax h j) /\
+    hmax h' y = rval (hmax h (hright h (hleft h y))) (hmax h (hright h y)) (hmin h y) /\
+    hmax h' (hleft h y) =
+      rval (hmax h (hleft h (hleft h y)))
+           (rval (hmax h (hright h (hleft h y))) (hmax h (hright h y)) (hmin h y))
+           (hmin h (hleft h y)).
+  Proof.
+    unfold right_rotate. intros H N1 N2 N3 N3' N4 N5 N6.
+    destruct (y =? NIL) eqn:Ey; [discriminate|]. destruct (hleft h y =? NIL) eqn:Ex; [discriminate|].
+    apply Z.eqb_neq in Ex, Ey. cbn [orb] in H. cbv zeta in H.
+    set (x := hleft h y) in *. set (xr := hright h x) in *. set (yp := hparent h y) in *.
+    set (my := rval (hmax h xr) (hmax h (hright h y)) (hmin h y)).
+    set (mx := rval (hmax h (hleft h x)) my (hmin h x)).
+    set (h1 := refresh ggt nmin h y _ _) in H.
+    assert (E1 : h1 = set_max h y my) by reflexivity. clearbody h1.
+    set (h2 := refresh ggt nmin h1 _ _ _) in H.
+    assert (E2 : h2 = set_max h1 x mx).
+    { unfold h2, refresh. f_equal. rewrite E1. hs. reflexivity. }
+    clearbody h2.
+    set (h3 := set_left h2 _ _) in H.
+    assert (E3 : h3 = set_left h2 y xr).
+    { unfold h3. f_equal. rewrite E2, E1. hs. reflexivity. }
+    clearbody h3.
+    set (h4 := set_parent h3 _ _) in H.
+    assert (E4 : h4 = set_parent h3 xr y).
+    { unfold h4. f_equal. rewrite E3, E2, E1. hs. reflexivity. }
+    clearbody h4.
+    set (h5 := set_parent h4 _ _) in H.
+    assert (E5 : h5 = set_parent h4 x yp).
+    { unfold h5. f_equal. rewrite E4, E3, E2, E1. hs. reflexivity. }
+    clearbody h5.
+    assert (P5 : hparent h5 y = yp). { rewrite E5, E4, E3, E2, E1. hs. reflexivity. }
+    rewrite P5 in H.
+    assert (L5 : hleft h5 yp = hleft h yp). { rewrite E5, E4, E3, E2, E1. hs. reflexivity. }
+    rewrite L5 in H.
+    set (h6 := if yp =? NIL then h5 else if hleft h yp =? y then set_left h5 yp x else set_right h5 yp x).
+    assert (E6 : fst (if yp =? NIL then (h5, x) else
+                 if hleft h yp =? y then (set_left h5 yp x, root) else (set_right h5 yp x, root)) = h6).
+    { unfold h6. destruct (yp =? NIL); [reflexivity|]. destruct (hleft h yp =? y); reflexivity. }
+    assert (R6 : snd (if yp =? NIL then (h5, x) else
+                 if hleft h yp =? y then (set_left h5 yp x, root) else (set_right h5 yp x, root)) =
+                 (if yp =? NIL then x else root)).
+    { destruct (yp =? NIL); [reflexivity|]. destruct (hleft h yp =? y); reflexivity. }
+    rewrite E6, R6 in H. injection H as <- <-.
+    split; [exact Ey|]. split; [exact Ex|]. split; [reflexivity|].
+    assert (F : forall (P : heap -> Prop),
+               (yp = NIL -> P h5) ->
+               (yp <> NIL -> hleft h yp = y -> P (set_left h5 yp x)) ->
+               (yp <> NIL -> hleft h yp <> y -> P (set_right h5 yp x)) -> P h6).
+    { intros P A B C. unfold h6. destruct (Z.eqb_spec yp NIL); [auto|].
+      destruct (Z.eqb_spec (hleft h yp) y); [apply B|apply C]; auto. }
+    split. { hs. apply F; fin E5 E4 E3 E2 E1. }
+    split. { hs. apply F; fin E5 E4 E3 E2 E1. }
+    split. { hs. reflexivity. }
+    split. { hs. reflexivity. }
+    split. { hs. apply F; fin E5 E4 E3 E2 E1. }
+    split. { hs. apply F; fin E5 E4 E3 E2 E1. }
+    split. { intros Hn. assert (xr <> yp) by (intros E; apply Hn; rewrite E; apply N6; exact E).
+             repeat split; hs; apply F; fin E5 E4 E3 E2 E1. }
+    split. { intros Hn. assert (xr <> yp) by (intros E; apply Hn; apply N6; exact E).
+             split; [hs; apply F; fin E5 E4 E3 E2 E1|].
+             split; intros Hl; split; hs; apply F; fin E5 E4 E3 E2 E1. }
+    split. { intros j J1 J2 J3 J4. unfold same_ptrs. repeat split; hs; apply F; fin E5 E4 E3 E2 E1. }
+    split. { intros j. repeat split; hs; apply F; fin E5 E4 E3 E2 E1. }
+    split. { intros j J1 J2. hs; apply F; fin E5 E4 E3 E2 E1. }
+    split; hs; apply F; fin E5 E4 E3 E2 E1.
+  Qed.
+
 End Rot.
